@@ -7,7 +7,11 @@ returns the observable result in the specification's vocabulary, and projects th
 real module state onto the specification's variables.
 """
 import ast
+import copy
+import collections
 import contextlib
+import os
+import random
 import re
 import sys
 import types
@@ -61,6 +65,36 @@ class BoolRaises:
     raise ValueError('The truth value of this object is ambiguous.')
 
 
+_NT = collections.namedtuple('_NT', ['a', 'b'])
+
+# Concrete Python values behind the specification's abstract literal ids.  They stress the text
+# level (quoting, escapes, line wrapping, numeric edge cases); all are literally representable.
+LIT_POOL = [
+    's', 7, -3, 2.5, -0.0, 1e300, 10**20, True, None, b'by', 'with space', 'qu\'ote"s', 'line\nbreak', ' lead ',
+    (1, 'a'), [1, [2, 'x']], {'k': (1,), 2: None}, '', 'x' * 90, 'back\\slash', 1e-7, -10**15, False, (), [],
+    'long ' * 30, [('t', 1.5), {'n': [None, True]}], 0, 'unicod\u00e9',
+]
+# ... and values with no literal form (must be omitted from config strings, never printed)
+def _nonlit_pool():
+  return [float('inf'), float('-inf'), float('nan'), {1, 2}, 1 + 2j, object(), frozenset([3]), _NT(1, 2),
+          range(3), [1, {2, 3}], {'k': float('inf')}, (1, object()), collections.OrderedDict(a=1), len]
+
+
+def _vkey(x):
+  """Canonical, hashable identity of a concrete value: type-exact, dict / set order independent."""
+  if isinstance(x, dict) and type(x) is dict:
+    return ('dict', tuple(sorted((_vkey(k), _vkey(v)) for k, v in x.items())))
+  if type(x) in (list, tuple):
+    return (type(x).__name__, tuple(_vkey(i) for i in x))
+  if type(x) in (set, frozenset):
+    return (type(x).__name__, tuple(sorted(_vkey(i) for i in x)))
+  return (type(x).__name__, repr(x))
+
+
+def _immutable(x):
+  return not isinstance(x, (list, dict, set)) and (not isinstance(x, tuple) or all(_immutable(i) for i in x))
+
+
 class Result:
   """What a 'record' probe returns: a fresh object per invocation."""
   counter = [0]
@@ -89,6 +123,15 @@ class World:
     self.cms = []          # open config_scope context managers
     self.unlock_cms = []
     self.nonlits = {}
+    World.serial = getattr(World, 'serial', 0) + 1
+    self.rng = random.Random(core.seed() * 100003 + World.serial)
+    self.lit_pool = list(LIT_POOL)
+    self.rng.shuffle(self.lit_pool)
+    self.nonlit_pool = _nonlit_pool()
+    self.rng.shuffle(self.nonlit_pool)
+    self.lits = {}          # literal id -> concrete value
+    self.lit_ids = {}       # (type, repr) -> literal id
+    self.plain_lits = os.environ.get('GINVERIF_PLAIN_LITS') == '1'
     self.call_log = []
     self.step = 0
     self._reg_before = dict(config._REGISTRY.items())
@@ -217,9 +260,28 @@ class World:
   def to_real(self, v):
     t = v[0]
     if t == 'lit':
-      return v[1]
+      if self.plain_lits:
+        return v[1]
+      if v[1] not in self.lits:
+        pool = self.lit_pool
+        if v[1].startswith('d_'):
+          # signature defaults are handed over by Python itself (the same object at every call): a consumer
+          # mutating a mutable default is ordinary Python, not something Gin can prevent
+          pool = [x for x in self.lit_pool if _immutable(x)]
+        val = pool[-1] if pool else 'lit-' + v[1]
+        if pool:
+          self.lit_pool = [x for x in self.lit_pool if x is not val]
+        self.lits[v[1]] = val
+        self.lit_ids[_vkey(val)] = v[1]
+      return copy.deepcopy(self.lits[v[1]])
     if t == 'nonlit':
-      return self.nonlits.setdefault(v[1], NonLit(v[1]))
+      if v[1] not in self.nonlits:
+        # identity-carrying sentinels for ids starting with 'o' (constants), otherwise pool values
+        if v[1].startswith('o') or not self.nonlit_pool or self.plain_lits:
+          self.nonlits[v[1]] = NonLit(v[1])
+        else:
+          self.nonlits[v[1]] = self.nonlit_pool.pop()
+      return self.nonlits[v[1]]
     if t == 'req':
       return self.gin.REQUIRED
     if t == 'cp':
@@ -246,6 +308,15 @@ class World:
       return ['req']
     if isinstance(x, Result):
       return ['res', x.sel.split('.'), x.scope, self.map_to_spec(x.delivered)]
+    for name, obj in self.nonlits.items():
+      if obj is x:
+        return ['nonlit', name]
+    k = _vkey(x)
+    if k in self.lit_ids:
+      return ['lit', self.lit_ids[k]]
+    for name, obj in self.nonlits.items():
+      if not isinstance(obj, NonLit) and _vkey(obj) == k:
+        return ['nonlit', name]
     if isinstance(x, NonLit):
       # identity matters: a constant must be delivered as that very object
       return ['nonlit', x.name] if self.nonlits.get(x.name) is x else ['nonlit-copy', x.name]
@@ -406,7 +477,7 @@ class World:
     """Config-file text of a specification value."""
     t = v[0]
     if t == 'lit':
-      return repr(v[1])
+      return repr(self.to_real(v))
     if t == 'ref':
       return '@' + '/'.join(list(v[2]) + [dotted(v[1])]) + ('()' if v[3] == 'call' else '')
     if t == 'pct':
